@@ -274,6 +274,10 @@ pub enum Api {
     VmThenTc { continue_on_error: bool },
     /// As `VmThenTc{false}`, but the type-checker phases are called one by one.
     Phases,
+    /// As `VmThenTc{false}`, then the program is executed a second time on a
+    /// fresh VM and the *same* `TypeChecker` runs on that result too (a client
+    /// that keeps one checker around); the outcome is that of the second run.
+    ReusedChecker,
 }
 
 #[derive(Clone, Debug, Serialize, Deserialize, PartialEq, Eq)]
@@ -1032,7 +1036,7 @@ fn run_body(sc: &Scenario, wd: DynWatchdog) -> BodyOut {
                 Err(e) => bail!(e, 4),
             }
         }
-        Api::VmThenTc { .. } | Api::Phases => {
+        Api::VmThenTc { .. } | Api::Phases | Api::ReusedChecker => {
             let continue_on_error = matches!(sc.api, Api::VmThenTc { continue_on_error: true });
             let stream = match InstructionStream::try_from(sc.code.as_slice()) {
                 Ok(s) => s,
@@ -1074,6 +1078,7 @@ fn run_body(sc: &Scenario, wd: DynWatchdog) -> BodyOut {
                 notes.push("continued_on_partial_state".into());
             }
             let result = machine.consume();
+            let wd_again = wd.clone();
             let mut checker = TypeChecker::new(tc_config(sc.poisoned_table), wd);
             let tc_result = if matches!(sc.api, Api::Phases) {
                 (|| {
@@ -1085,6 +1090,21 @@ fn run_body(sc: &Scenario, wd: DynWatchdog) -> BodyOut {
                 })()
             } else {
                 checker.run(result)
+            };
+            let tc_result = if matches!(sc.api, Api::ReusedChecker) {
+                notes.push(format!("first_run_ok={}", tc_result.is_ok()));
+                let again = InstructionStream::try_from(sc.code.as_slice())
+                    .ok()
+                    .and_then(|stream| VM::new(stream, sc.knobs.to_config(), wd_again.clone()).ok());
+                match again {
+                    Some(mut machine) => {
+                        let _ = machine.execute();
+                        checker.run(machine.consume())
+                    }
+                    None => tc_result,
+                }
+            } else {
+                tc_result
             };
             match tc_result {
                 Ok(l) => BodyOut {
